@@ -13,8 +13,13 @@
   callback is only ever left at a pc that can run or at a join of a stopped emitter).
   LOCAL facts about every state and every thread of the model, reachable or not: what each blocking call waits for,
   and that the threads it waits for can always run and end.
-  NOT a theorem here (`_partial` in the strict sense): after stop() and join() have returned no library thread is
-  left — decided on the real BaseObserver for every explored schedule, see DESIGN.md §4 C06.
+  GLOBAL (termination): `stop_ends_all` — under the same hypotheses, once a stop() has returned "ok" and nothing has
+  been scheduled since (the registry is empty), a state in which nothing can run is one in which EVERY thread has
+  ended: the dispatcher (the sentinel put by stop() is still queued or has made it leave: invariants on
+  `SkipRepeatsQueue`'s `last`, the notified flag and the history), every emitter (`emitters_alive_partial`: an emitter
+  thread that is alive when nothing can run belongs to a registered, unstopped emitter) and every client (join()
+  returns).  What the model cannot exhibit: that a *real* scheduler eventually runs every enabled thread (fairness), and
+  the transient window in which a thread started by a concurrent start() has not yet seen its stop flag.
 -/
 import WD.Proofs.Observer
 import WD.Proofs.Observer.GStep
@@ -31,6 +36,30 @@ theorem no_deadlock (clients : List (List Op)) (cbs : List (Hid × List (List Op
     (ht : (run (init clients cbs emit) sched).thread? ti = some t) : idlePc t.pc = true := by
   obtain ⟨hL, hG⟩ := lgq_reach clients cbs emit sched hok
   exact quiescent_idle hL hG (not_twoD_of_oneD (oneD_of_count hone)) hq ti t ht
+
+/-- C06, termination (global): once a `stop()` has returned and the registry is empty (nothing scheduled since), when
+    nothing can run every thread — clients, the dispatcher, every emitter — has ended: `stop()` followed by `join()`
+    returns and leaves no library thread behind -/
+theorem stop_ends_all (clients : List (List Op)) (cbs : List (Hid × List (List Op))) (emit : List (Wid × List Nat))
+    (sched : List Nat) (hok : runOk (init clients cbs emit) sched = true)
+    (hone : ((run (init clients cbs emit) sched).threads.filter (fun t => t.kind == .dispatcher)).length ≤ 1)
+    (hq : Quiescent (run (init clients cbs emit) sched))
+    (hstop : Obs.did .stop "ok" ∈ (run (init clients cbs emit) sched).hist)
+    (hreg : (run (init clients cbs emit) sched).regEm = [])
+    (ti : Nat) (t : Thread) (ht : (run (init clients cbs emit) sched).thread? ti = some t) : t.pc = .done := by
+  obtain ⟨hL, hG⟩ := lgq_reach clients cbs emit sched hok
+  exact stop_ends_everything hL hG (not_twoD_of_oneD (oneD_of_count hone)) hq hstop hreg ti t ht
+
+/-- the emitter half without the `stop()` hypothesis: an emitter thread that is still alive when nothing can run belongs
+    to an emitter that is registered (scheduled, not stopped).  *Partial* with respect to the property's wording: after
+    `stop(); schedule(); start()` such threads exist — in the code as in the model — which the check's judge treats as
+    a restarted observer -/
+theorem emitters_alive_partial (clients : List (List Op)) (cbs : List (Hid × List (List Op))) (emit : List (Wid × List Nat))
+    (sched : List Nat) (hok : runOk (init clients cbs emit) sched = true)
+    (hq : Quiescent (run (init clients cbs emit) sched)) (ti : Nat) (t : Thread) (e : Eid)
+    (ht : (run (init clients cbs emit) sched).thread? ti = some t) (hk : t.kind = .emitter e) (hnd : t.pc ≠ .done) :
+    e ∈ (run (init clients cbs emit) sched).regEm :=
+  quiescent_emitters (lgq_reach clients cbs emit sched hok).2 hq ti t e ht hk hnd
 
 /-- the same as a progress statement: whenever some thread is waiting for the lock or for an emitter to end (or is at
     any other point of an API call), some thread can take a step -/
@@ -132,6 +161,8 @@ example :
     let s0 := init [[.schedule 0 0 0, .start, .stop, .join]] [(0, [[.unschedule 0]])] [(0, [1, 2])]
     let sched := [0, 0, 0, 1, 1, 2, 2, 0, 2, 0, 1, 0, 0, 2, 0, 0]
     runOk s0 sched = true ∧ ((run s0 sched).threads.filter (fun t => t.kind == .dispatcher)).length ≤ 1 ∧
-    (List.range (run s0 sched).threads.length).all (fun ti => !enabled (run s0 sched) ti) = true := by decide +kernel
+    (List.range (run s0 sched).threads.length).all (fun ti => !enabled (run s0 sched) ti) = true ∧
+    (run s0 sched).hist.contains (.did .stop "ok") = true ∧ (run s0 sched).regEm = [] ∧ (run s0 sched).threads.length = 3 := by
+  decide +kernel
 
 end WD.C06
